@@ -383,6 +383,8 @@ struct Gen {
             if (high) b[g.below(n)] |= 0x80;
             return hex_bytes(b, n);
         }
+        // the all-zero key (tag (0,0), value 0): untouched slots of a cleared allocation look like it
+        if (g.chance(8)) return "0";
         switch (g.below(3)) {
             case 0: return hex_u64(g.below(4096));
             case 1: return hex_u64(make_tag((uint32_t)g.below(300), (uint32_t)g.below(300)));
